@@ -844,35 +844,12 @@ fn check_state(r: &Req, a: &CscMatrix<f64>, out: &str, logical: bool) -> Result<
     Ok(Some(NewView { fac, perm, iperm, p, signs }))
 }
 
-/// FINDING (reproduced on the unchanged code, see the final report): `_factor_inner` starts with
-/// `D[0] = Ax[0]`, i.e. it takes the first stored value of `triuA` for the (0,0) entry.  When the
-/// input has no stored diagonal entry at index `perm[0]`, column 0 of `triuA` is empty and the
-/// first value of another column is used as the first pivot: `Ok` with a silently wrong
-/// factorisation / solution (e.g. A=[[1,2],[2,·]], perm=[1,0], regulariser off: x=(1/3,1/3)
-/// instead of ZeroPivot).  Failures of that class carry this tag so that they can be
-/// registered in known_findings.json; the oracle itself is not relaxed.
-const TAG_FIRST_PIVOT: &str = "[finding:C12-first-pivot-missing-diagonal]";
-
-fn missing_first_diag(r: &Req) -> bool {
-    let a = r.csc("");
-    let perm = r.us("perm");
-    let n = a.n;
-    if !well_formed(&a) || a.m != n || n == 0 || perm.len() < n || !is_perm(&perm[..n]) {
-        return false;
-    }
-    let p0 = perm[0];
-    !(a.colptr[p0]..a.colptr[p0 + 1]).any(|k| a.rowval[k] == p0)
-}
-
-fn tagged(r: &Req, res: Result<(), String>) -> Result<(), String> {
-    match res {
-        Err(e) if missing_first_diag(r) => Err(format!("{} {}", TAG_FIRST_PIVOT, e)),
-        other => other,
-    }
-}
-
+// NB (repaired defect c474176, `D[0] = Ax[0]` with an empty first column of `triuA`): inputs
+// whose permuted matrix has no stored (0,0) entry are ordinary cases of every oracle below —
+// no tag, no exemption.  `gen_units` submits the minimal instance with `expect=zeropivot`, so
+// the old behaviour (Ok with D[0] = 1, x = (1/3,1/3)) alarms on three independent checks.
 fn oracle_new(r: &Req, out: &str) -> Result<(), String> {
-    tagged(r, oracle_new_inner(r, out))
+    oracle_new_inner(r, out)
 }
 
 fn oracle_new_inner(r: &Req, out: &str) -> Result<(), String> {
@@ -951,7 +928,7 @@ fn run_ops(r: &Req) -> String {
 /// from-scratch factorisation of the updated matrix (built only with `new`), and every
 /// solve must solve the matrix of the last factorisation.
 fn oracle_ops(r: &Req, out: &str) -> Result<(), String> {
-    tagged(r, oracle_ops_inner(r, out))
+    oracle_ops_inner(r, out)
 }
 
 fn oracle_ops_inner(r: &Req, out: &str) -> Result<(), String> {
@@ -1143,6 +1120,54 @@ fn pattern_of(n: usize, mask: u64) -> Vec<Vec<usize>> {
         cols[c].push(c);
     }
     cols
+}
+
+/// remove the structural diagonal entry of the columns selected by `dmask`, where the column
+/// stays non-empty (column 0 can never lose its only possible entry)
+fn drop_diagonals(cols: &[Vec<usize>], dmask: u64) -> Vec<Vec<usize>> {
+    let mut out = cols.to_vec();
+    for (c, col) in out.iter_mut().enumerate() {
+        if dmask >> c & 1 == 1 && col.len() > 1 {
+            col.retain(|&r| r != c);
+        }
+    }
+    out
+}
+
+fn has_missing_diag(a: &CscMatrix<f64>) -> bool {
+    (0..a.n).any(|c| !(a.colptr[c]..a.colptr[c + 1]).any(|k| a.rowval[k] == c))
+}
+
+/// Histories aimed at state that survives in the factorisation object between two numeric
+/// passes (`D`, `Dinv`, `L.nzval`, the scratch buffers): logical(true) → refactor → solve,
+/// and factor → modify every value → refactor → solve → refactor.  The oracle compares every
+/// refactor bit for bit with a from-scratch factorisation and checks the residual of the solves.
+fn submit_reuse_histories(s: &mut Session, c: &Case, perm: &[usize], fam: Fam) {
+    let n = c.a.n;
+    let nnz = c.a.nzval.len();
+    let all: Vec<usize> = (0..nnz).collect();
+    let c2 = Case { a: c.a.clone(), dsigns: c.dsigns.clone(), expect: None };
+    let mut o = rand_opts(&mut s.rng, fam);
+    o.logical = true;
+    let b = rand_values(&mut s.rng, n);
+    let l = base_line("qdldl.ops", &c2, perm, None, &o)
+        .u("nops", 2)
+        .s("op0", "refactor")
+        .s("op1", "solve")
+        .fs("b1", &b);
+    s.submit(l.done());
+    o.logical = false;
+    let v = rand_values(&mut s.rng, nnz);
+    let l = base_line("qdldl.ops", &c2, perm, None, &o)
+        .u("nops", 6)
+        .s("op0", "scale").us("i0", &all).f("s0", 2.0)
+        .s("op1", "refactor")
+        .s("op2", "solve").fs("b2", &b)
+        .s("op3", "update").us("i3", &all).fs("v3", &v)
+        .s("op4", "refactor")
+        .s("op5", "solve").fs("b5", &b);
+    s.submit(l.done());
+    s.count("reuse-histories");
 }
 
 fn fill_values(rng: &mut Rng, n: usize, cols: &[Vec<usize>], fam: Fam, perm: &[usize]) -> Case {
@@ -1378,6 +1403,12 @@ fn submit_case(s: &mut Session, c: &Case, perm: &[usize], fam: Fam) {
     }
     let l = with_ops(&mut rng, base_line("qdldl.ops", &c2, perm, None, &o2), &c.a, o2.logical, false);
     s.submit(l.done());
+    if fam != Fam::ExactLdl && (has_missing_diag(&c.a) || s.rng.bool(0.15)) {
+        if has_missing_diag(&c.a) {
+            s.count("missing-diagonal-input");
+        }
+        submit_reuse_histories(s, c, perm, fam);
+    }
 }
 
 fn gen_exhaustive(s: &mut Session) {
@@ -1397,6 +1428,26 @@ fn gen_exhaustive(s: &mut Session) {
                 for p in &plist {
                     c = fill_values(&mut s.rng, n, &cols, fam, p);
                     submit_case(s, &c, p, fam);
+                }
+                // the same pattern with structural diagonal entries removed (columns stay
+                // non-empty): all subsets for n <= 3 (thorough: n <= 4), two random ones beyond
+                if fam != Fam::ExactLdl && n >= 2 {
+                    let all_subsets = n <= 3 || (s.thorough() && n <= 4);
+                    let dmasks: Vec<u64> = if all_subsets {
+                        (1..(1u64 << n)).collect()
+                    } else {
+                        (0..2).map(|_| 1 + s.rng.next_u64() % ((1u64 << n) - 1)).collect()
+                    };
+                    let mut seen = std::collections::HashSet::new();
+                    for dm in dmasks {
+                        let cols2 = drop_diagonals(&cols, dm);
+                        if cols2 == cols || !seen.insert(cols2.clone()) {
+                            continue;
+                        }
+                        let p = if n <= 3 { plist[s.rng.below(plist.len())].clone() } else { s.rng.perm(n) };
+                        let c2 = fill_values(&mut s.rng, n, &cols2, fam, &p);
+                        submit_case(s, &c2, &p, fam);
+                    }
                 }
                 // symbolic pieces on the pattern itself
                 if fam == Fam::SmallInt {
@@ -1424,6 +1475,10 @@ fn random_case(s: &mut Session, nmax: usize) -> (Case, Fam, Vec<usize>) {
     }
     let fam = *s.rng.choose(&[Fam::SmallInt, Fam::QuasiDef, Fam::QuasiDef, Fam::Random, Fam::ExactLdl]);
     let fam = if fam == Fam::ExactLdl && n > 8 { Fam::QuasiDef } else { fam };
+    if fam != Fam::ExactLdl && s.rng.bool(0.3) {
+        let dm = if s.rng.bool(0.3) { u64::MAX } else { s.rng.next_u64() };
+        cols = drop_diagonals(&cols, dm);
+    }
     let perm = if s.rng.bool(0.2) { (0..n).collect() } else { s.rng.perm(n) };
     (fill_values(&mut s.rng, n, &cols, fam, &perm), fam, perm)
 }
@@ -1623,9 +1678,11 @@ fn gen_units(s: &mut Session) {
     // minimal instances with a structurally missing diagonal entry, every ordering
     if !s.is_searching() {
         let a = CscMatrix { m: 2, n: 2, colptr: vec![0, 1, 2], rowval: vec![0, 0], nzval: vec![1.0, 2.0] };
-        let c = Case { a, dsigns: None, expect: None };
         for perm in [vec![0usize, 1], vec![1, 0]] {
             for enable in [false, true] {
+                // ΠAΠ' = [[0,2],[2,1]] for perm = [1,0]: exact zero first pivot
+                let expect = if enable { None } else if perm[0] == 1 { Some("zeropivot") } else { Some("ok") };
+                let c = Case { a: a.clone(), dsigns: None, expect };
                 let o = Opts { enable, eps: 1e-12, delta: 1e-7, logical: false };
                 s.submit(base_line("qdldl.new", &c, &perm, None, &o).done());
                 let l = base_line("qdldl.ops", &c, &perm, None, &o).u("nops", 1).s("op0", "solve").fs("b0", &[1.0, 1.0]);
